@@ -245,6 +245,15 @@ pub trait Check: Sync + Send + 'static {
     fn extra_coverage() -> BTreeMap<String, serde_json::Value> {
         BTreeMap::new()
     }
+    /// Run every case in a supervised worker subprocess (the code under test may
+    /// abort, exhaust memory or hang).
+    fn isolated() -> bool {
+        false
+    }
+    /// Watchdog per case in isolated mode (seconds); a backstop, not an oracle.
+    fn case_timeout_s() -> u64 {
+        20
+    }
 }
 
 // ---------------------------------------------------------------- panics
@@ -420,6 +429,12 @@ pub struct RunOpts {
     pub threads: usize,
     pub budget_override: Option<usize>,
     pub strict: bool,
+    /// worker mode: (shard, shards, first index)
+    pub worker: Option<(usize, usize, usize)>,
+    /// run inside a supervised child (no further process isolation)
+    pub inner: bool,
+    /// shrink the tape stored in this file and print the result (child of the supervisor)
+    pub shrink_file: Option<PathBuf>,
 }
 
 fn trim_sample(v: serde_json::Value) -> serde_json::Value {
@@ -433,6 +448,39 @@ fn trim_sample(v: serde_json::Value) -> serde_json::Value {
 
 /// Run one check; returns the process exit code.
 pub fn run_check<C: Check>(opts: &RunOpts) -> i32 {
+    if opts.worker.is_some() {
+        return worker_main::<C>(opts);
+    }
+    if opts.shrink_file.is_some() {
+        return shrink_main::<C>(opts);
+    }
+    if C::isolated() && !opts.inner {
+        if let Some(path) = &opts.replay {
+            return match replay_supervised(C::ID, opts, path, C::case_timeout_s() * 3) {
+                ReplayEnd::Pass => {
+                    println!("{}: replay passes", C::ID);
+                    0
+                }
+                ReplayEnd::Known(k) => {
+                    println!("KNOWN-FINDING: property={} {k}", C::ID);
+                    0
+                }
+                ReplayEnd::Fail(m) => {
+                    println!("{}: replay fails: {m}", C::ID);
+                    println!("VIOLATION property={} replay={}", C::ID, path.display());
+                    1
+                }
+                ReplayEnd::Infra(m) => {
+                    eprintln!("{}: infrastructure problem: {m}", C::ID);
+                    2
+                }
+            };
+        }
+        return supervise::<C>(opts);
+    }
+    if opts.inner {
+        limit_process_memory();
+    }
     let started = Instant::now();
     let id = C::ID;
     let known = load_known();
@@ -739,4 +787,539 @@ pub fn fill_bytes(seed: u64, len: usize) -> Vec<u8> {
     }
     out.truncate(len);
     out
+}
+
+// ------------------------------------------------------------------ isolation
+
+fn unhex(s: &str) -> Vec<u8> {
+    (0..s.len() / 2).filter_map(|i| u8::from_str_radix(&s[2 * i..2 * i + 2], 16).ok()).collect()
+}
+
+fn case_for<C: Check>(fixed: &[C::Case], idx: usize, base: u64, tier: Tier) -> (C::Case, Option<Vec<u8>>) {
+    if idx < fixed.len() {
+        (fixed[idx].clone(), None)
+    } else {
+        let mut src = Src::from_seed(mix(base, idx as u64));
+        match guard(|| C::gen(&mut src, tier)) {
+            Ok(c) => (c, Some(src.tape().to_vec())),
+            Err(p) => {
+                eprintln!("{}: generator panicked: {p}", C::ID);
+                std::process::exit(2);
+            }
+        }
+    }
+}
+
+fn limit_process_memory() {
+    crate::alloc::HARD_CAP.store(1 << 30, Ordering::Relaxed);
+    unsafe {
+        let lim = libc::rlimit { rlim_cur: 12 << 30, rlim_max: 12 << 30 };
+        libc::setrlimit(libc::RLIMIT_AS, &lim);
+    }
+}
+
+/// Worker: runs its share of the case indices and reports one JSON line per event.
+pub fn worker_main<C: Check>(opts: &RunOpts) -> i32 {
+    use std::io::Write;
+    let (shard, shards, from) = opts.worker.unwrap_or((0, 1, 0));
+    limit_process_memory();
+    let known = load_known();
+    let fixed = C::fixed(opts.tier);
+    let total = fixed.len() + opts.budget_override.unwrap_or_else(|| C::budget(opts.tier));
+    let base = mix(opts.seed, hash_str(C::ID));
+    let out = std::io::stdout();
+    let mut idx = from;
+    while idx % shards != shard {
+        idx += 1;
+    }
+    while idx < total {
+        let (case, tape) = case_for::<C>(&fixed, idx, base, opts.tier);
+        {
+            let mut o = out.lock();
+            let _ = writeln!(o, "{}", serde_json::json!({"t": "start", "i": idx}));
+            let _ = o.flush();
+        }
+        let v = settle(C::ID, &known, run_guarded::<C>(&case));
+        let js = serde_json::to_string(&case).unwrap_or_default();
+        let (kind, key, msg) = match &v.outcome {
+            Outcome::Pass => ("pass", String::new(), String::new()),
+            Outcome::Known { key, detail } => ("known", key.clone(), detail.clone()),
+            Outcome::Fail(m) => ("fail", String::new(), m.clone()),
+            Outcome::Infra(m) => ("infra", String::new(), m.clone()),
+        };
+        let send_case = idx < 2 || v.nontrivial || kind == "fail" || kind == "infra";
+        let line = serde_json::json!({
+            "t": "done", "i": idx, "labels": v.labels, "nt": v.nontrivial, "out": kind, "key": key, "msg": msg, "execs": v.execs,
+            "fp": hash_str(&js), "case": if send_case && js.len() < 200_000 { serde_json::from_str::<serde_json::Value>(&js).ok() } else { None },
+            "tape": tape.as_ref().map(|t| hex(t)),
+        });
+        let mut o = out.lock();
+        let _ = writeln!(o, "{line}");
+        let _ = o.flush();
+        idx += shards;
+    }
+    0
+}
+
+/// Child of the supervisor: shrink a failing tape in this process and print the result.
+pub fn shrink_main<C: Check>(opts: &RunOpts) -> i32 {
+    limit_process_memory();
+    let known = load_known();
+    let Some(f) = &opts.shrink_file else { return 2 };
+    let tape = unhex(std::fs::read_to_string(f).unwrap_or_default().trim());
+    let (small, tries) = shrink::<C>(opts.tier, &known, tape, 1500);
+    let mut src = Src::from_tape(small.clone());
+    let case = C::gen(&mut src, opts.tier);
+    let v = settle(C::ID, &known, run_guarded::<C>(&case));
+    if let Outcome::Fail(m) = v.outcome {
+        println!("{}", serde_json::json!({"tape": hex(&small), "case": serde_json::to_value(&case).unwrap_or_default(), "message": m, "tries": tries}));
+        0
+    } else {
+        1
+    }
+}
+
+enum Ev {
+    Line(String),
+    Eof,
+}
+
+struct Child {
+    child: std::process::Child,
+    rx: std::sync::mpsc::Receiver<Ev>,
+    stderr_path: PathBuf,
+}
+
+fn spawn_self(args: &[String], tag: &str) -> std::io::Result<Child> {
+    use std::io::BufRead;
+    let exe = std::env::current_exe()?;
+    let dir = Path::new(VERIF_ROOT).join("out").join("workers");
+    std::fs::create_dir_all(&dir)?;
+    let stderr_path = dir.join(format!("{}-{}.stderr", std::process::id(), tag));
+    let errf = std::fs::File::create(&stderr_path)?;
+    let mut child = std::process::Command::new(exe).args(args).env("RUST_BACKTRACE", "0").stdout(std::process::Stdio::piped()).stderr(errf).stdin(std::process::Stdio::null()).spawn()?;
+    let stdout = child.stdout.take().ok_or_else(|| std::io::Error::new(std::io::ErrorKind::Other, "no stdout"))?;
+    let (tx, rx) = std::sync::mpsc::channel();
+    std::thread::spawn(move || {
+        let r = std::io::BufReader::new(stdout);
+        for line in r.lines() {
+            match line {
+                Ok(l) => {
+                    if tx.send(Ev::Line(l)).is_err() {
+                        return;
+                    }
+                }
+                Err(_) => break,
+            }
+        }
+        let _ = tx.send(Ev::Eof);
+    });
+    Ok(Child { child, rx, stderr_path })
+}
+
+fn stderr_tail(p: &Path) -> String {
+    let t = std::fs::read_to_string(p).unwrap_or_default();
+    let lines: Vec<&str> = t.lines().filter(|l| !l.trim().is_empty()).collect();
+    let key: Vec<&str> = lines.iter().copied().filter(|l| l.contains("memory allocation") || l.contains("panicked") || l.contains("overflow") || l.contains("fatal")).collect();
+    if !key.is_empty() {
+        return key[..key.len().min(3)].join(" | ");
+    }
+    lines[lines.len().saturating_sub(4)..].join(" | ")
+}
+
+/// How a single case ends when run alone in a fresh process.
+enum Alone {
+    Done(serde_json::Value),
+    Died(String),
+    Hung,
+}
+
+fn run_alone(id: &str, opts: &RunOpts, idx: usize, timeout_s: u64) -> Alone {
+    let mut args = vec![id.to_string(), opts.tier.name().to_string(), "--worker".into(), format!("{idx}"), "1000000007".into(), format!("{idx}")];
+    if let Some(b) = opts.budget_override {
+        args.push("--cases".into());
+        args.push(b.to_string());
+    }
+    // the shard arithmetic: index idx, stride huge => exactly one case
+    let Ok(mut c) = spawn_self(&args, &format!("alone-{idx}")) else { return Alone::Died("cannot spawn".into()) };
+    let deadline = Instant::now() + std::time::Duration::from_secs(timeout_s);
+    let mut done = None;
+    loop {
+        let left = deadline.saturating_duration_since(Instant::now());
+        match c.rx.recv_timeout(left) {
+            Ok(Ev::Line(l)) => {
+                if let Ok(v) = serde_json::from_str::<serde_json::Value>(&l) {
+                    if v["t"] == "done" {
+                        done = Some(v);
+                    }
+                }
+            }
+            Ok(Ev::Eof) | Err(std::sync::mpsc::RecvTimeoutError::Disconnected) => break,
+            Err(std::sync::mpsc::RecvTimeoutError::Timeout) => {
+                let _ = c.child.kill();
+                let _ = c.child.wait();
+                let _ = std::fs::remove_file(&c.stderr_path);
+                return Alone::Hung;
+            }
+        }
+    }
+    let st = c.child.wait();
+    let tail = stderr_tail(&c.stderr_path);
+    let _ = std::fs::remove_file(&c.stderr_path);
+    match done {
+        Some(v) => Alone::Done(v),
+        None => Alone::Died(format!("worker process ended with {st:?}: {tail}")),
+    }
+}
+
+/// Supervisor for isolated checks: same accounting as the in-process runner.
+pub fn supervise<C: Check>(opts: &RunOpts) -> i32 {
+    let started = Instant::now();
+    let id = C::ID;
+    let known = load_known();
+    if let Err(e) = C::preflight() {
+        eprintln!("{id}: preflight failed (model validity / infrastructure): {e}");
+        return 2;
+    }
+    let fixed_n = C::fixed(opts.tier).len();
+    let total = fixed_n + opts.budget_override.unwrap_or_else(|| C::budget(opts.tier));
+    let shards = opts.threads.max(1);
+    let evals = AtomicU64::new(0);
+    let execs = AtomicU64::new(0);
+    let stop = AtomicBool::new(false);
+    let labels: Mutex<BTreeMap<String, u64>> = Mutex::new(BTreeMap::new());
+    let distinct: Mutex<HashSet<u64>> = Mutex::new(HashSet::new());
+    let known_hits: Mutex<BTreeMap<String, u64>> = Mutex::new(BTreeMap::new());
+    let samples: Mutex<Vec<serde_json::Value>> = Mutex::new(Vec::new());
+    let nt_samples: Mutex<Vec<serde_json::Value>> = Mutex::new(Vec::new());
+    // (index, message, case json, tape hex)
+    let found: Mutex<Option<(usize, String, serde_json::Value, Option<String>)>> = Mutex::new(None);
+    let inconclusive: Mutex<Vec<String>> = Mutex::new(Vec::new());
+
+    // regression replays first (each in its own supervised child)
+    let mut regressions = 0usize;
+    let rdir = Path::new(VERIF_ROOT).join("replays").join(id);
+    let mut reg_files: Vec<PathBuf> = std::fs::read_dir(&rdir).map(|d| d.flatten().map(|e| e.path()).filter(|p| p.extension().map(|e| e == "json").unwrap_or(false)).collect()).unwrap_or_default();
+    reg_files.sort();
+    for p in &reg_files {
+        regressions += 1;
+        evals.fetch_add(1, Ordering::Relaxed);
+        execs.fetch_add(1, Ordering::Relaxed);
+        match replay_supervised(id, opts, p, C::case_timeout_s() * 3) {
+            ReplayEnd::Pass => {}
+            ReplayEnd::Known(k) => {
+                *known_hits.lock().unwrap().entry(k).or_insert(0) += 1;
+            }
+            ReplayEnd::Fail(m) => {
+                println!("{id}: regression replay {} fails: {m}", p.display());
+                println!("VIOLATION property={id} replay={}", p.display());
+                write_evidence::<C>(opts, started, evals.load(Ordering::Relaxed), execs.load(Ordering::Relaxed), &labels, &distinct, &known_hits, &samples, &nt_samples, regressions, 0, 1);
+                return 1;
+            }
+            ReplayEnd::Infra(m) => {
+                eprintln!("{id}: infrastructure problem in regression replay {}: {m}", p.display());
+                return 2;
+            }
+        }
+    }
+
+    let handle_done = |v: &serde_json::Value| {
+        let idx = v["i"].as_u64().unwrap_or(0) as usize;
+        evals.fetch_add(1, Ordering::Relaxed);
+        execs.fetch_add(v["execs"].as_u64().unwrap_or(1), Ordering::Relaxed);
+        if let Some(ls) = v["labels"].as_array() {
+            let mut l = labels.lock().unwrap();
+            for x in ls {
+                if let Some(s) = x.as_str() {
+                    *l.entry(s.to_string()).or_insert(0) += 1;
+                }
+            }
+        }
+        if v["nt"].as_bool().unwrap_or(false) {
+            let fresh = distinct.lock().unwrap().insert(v["fp"].as_u64().unwrap_or(idx as u64));
+            if fresh && !v["case"].is_null() {
+                let mut s = nt_samples.lock().unwrap();
+                if s.len() < 3 {
+                    s.push(trim_sample(v["case"].clone()));
+                }
+            }
+        }
+        if idx < 2 && !v["case"].is_null() {
+            samples.lock().unwrap().push(trim_sample(v["case"].clone()));
+        }
+        match v["out"].as_str().unwrap_or("") {
+            "known" => {
+                *known_hits.lock().unwrap().entry(v["key"].as_str().unwrap_or("").to_string()).or_insert(0) += 1;
+            }
+            "fail" => {
+                let mut f = found.lock().unwrap();
+                if f.as_ref().map(|x| idx < x.0).unwrap_or(true) {
+                    *f = Some((idx, v["msg"].as_str().unwrap_or("").to_string(), v["case"].clone(), v["tape"].as_str().map(|s| s.to_string())));
+                }
+                stop.store(true, Ordering::Relaxed);
+            }
+            "infra" => {
+                eprintln!("{id}: infrastructure problem (harness or reference model) in case #{idx}: {}", v["msg"].as_str().unwrap_or(""));
+                inconclusive.lock().unwrap().push(format!("case #{idx}: {}", v["msg"].as_str().unwrap_or("")));
+                stop.store(true, Ordering::Relaxed);
+            }
+            _ => {}
+        }
+    };
+
+    std::thread::scope(|sc| {
+        for shard in 0..shards {
+            let stop = &stop;
+            let found = &found;
+            let handle_done = &handle_done;
+            let inconclusive = &inconclusive;
+            sc.spawn(move || {
+                let mut from = shard;
+                'restart: while from < total && !stop.load(Ordering::Relaxed) {
+                    let mut args = vec![id.to_string(), opts.tier.name().to_string(), "--worker".into(), shard.to_string(), shards.to_string(), from.to_string()];
+                    if let Some(b) = opts.budget_override {
+                        args.push("--cases".into());
+                        args.push(b.to_string());
+                    }
+                    let Ok(mut c) = spawn_self(&args, &format!("w{shard}")) else {
+                        inconclusive.lock().unwrap().push("cannot spawn worker".into());
+                        return;
+                    };
+                    let mut in_flight: Option<usize> = None;
+                    loop {
+                        if stop.load(Ordering::Relaxed) {
+                            let _ = c.child.kill();
+                            let _ = c.child.wait();
+                            let _ = std::fs::remove_file(&c.stderr_path);
+                            return;
+                        }
+                        match c.rx.recv_timeout(std::time::Duration::from_millis(500)) {
+                            Ok(Ev::Line(l)) => {
+                                if let Ok(v) = serde_json::from_str::<serde_json::Value>(&l) {
+                                    if v["t"] == "start" {
+                                        in_flight = Some(v["i"].as_u64().unwrap_or(0) as usize);
+                                        LAST_PROGRESS.with(|p| p.set(Instant::now()));
+                                    } else if v["t"] == "done" {
+                                        handle_done(&v);
+                                        in_flight = None;
+                                        LAST_PROGRESS.with(|p| p.set(Instant::now()));
+                                    }
+                                }
+                            }
+                            Err(std::sync::mpsc::RecvTimeoutError::Timeout) => {
+                                let idle = LAST_PROGRESS.with(|p| p.get().elapsed().as_secs());
+                                if in_flight.is_some() && idle > C::case_timeout_s() {
+                                    // watchdog: kill, then re-run the case alone to confirm
+                                    let idx = in_flight.unwrap_or(0);
+                                    let _ = c.child.kill();
+                                    let _ = c.child.wait();
+                                    let _ = std::fs::remove_file(&c.stderr_path);
+                                    match run_alone(id, opts, idx, C::case_timeout_s() * 3) {
+                                        Alone::Hung => {
+                                            let mut f = found.lock().unwrap();
+                                            if f.as_ref().map(|x| idx < x.0).unwrap_or(true) {
+                                                *f = Some((idx, format!("does not terminate: a single case ran for more than {} s twice (alone for {} s)", C::case_timeout_s(), C::case_timeout_s() * 3), serde_json::Value::Null, None));
+                                            }
+                                            stop.store(true, Ordering::Relaxed);
+                                            return;
+                                        }
+                                        Alone::Done(v) => {
+                                            inconclusive.lock().unwrap().push(format!("case #{idx} hit the watchdog in a busy worker but finished alone (not a violation)"));
+                                            handle_done(&v);
+                                        }
+                                        Alone::Died(m) => {
+                                            let mut f = found.lock().unwrap();
+                                            if f.as_ref().map(|x| idx < x.0).unwrap_or(true) {
+                                                *f = Some((idx, format!("process died: {m}"), serde_json::Value::Null, None));
+                                            }
+                                            stop.store(true, Ordering::Relaxed);
+                                            return;
+                                        }
+                                    }
+                                    from = idx + shards;
+                                    continue 'restart;
+                                }
+                            }
+                            Ok(Ev::Eof) | Err(std::sync::mpsc::RecvTimeoutError::Disconnected) => {
+                                let st = c.child.wait();
+                                let tail = stderr_tail(&c.stderr_path);
+                                let _ = std::fs::remove_file(&c.stderr_path);
+                                match in_flight {
+                                    None => return, // finished its share
+                                    Some(idx) => {
+                                        // died with a case in flight: confirm alone
+                                        match run_alone(id, opts, idx, C::case_timeout_s() * 3) {
+                                            Alone::Died(m) => {
+                                                let mut f = found.lock().unwrap();
+                                                if f.as_ref().map(|x| idx < x.0).unwrap_or(true) {
+                                                    *f = Some((idx, format!("the process aborted or was killed while running the case ({st:?}; {tail}); confirmed alone: {m}"), serde_json::Value::Null, None));
+                                                }
+                                                stop.store(true, Ordering::Relaxed);
+                                                return;
+                                            }
+                                            Alone::Hung => {
+                                                let mut f = found.lock().unwrap();
+                                                if f.as_ref().map(|x| idx < x.0).unwrap_or(true) {
+                                                    *f = Some((idx, "does not terminate when run alone".into(), serde_json::Value::Null, None));
+                                                }
+                                                stop.store(true, Ordering::Relaxed);
+                                                return;
+                                            }
+                                            Alone::Done(v) => {
+                                                inconclusive.lock().unwrap().push(format!("worker died during case #{idx} ({tail}) but the case passes alone"));
+                                                handle_done(&v);
+                                            }
+                                        }
+                                        from = idx + shards;
+                                        continue 'restart;
+                                    }
+                                }
+                            }
+                        }
+                    }
+                }
+            });
+        }
+    });
+
+    let mut code = 0;
+    let mut violations = 0;
+    if let Some((idx, msg, case, tape)) = found.into_inner().unwrap() {
+        violations = 1;
+        code = 1;
+        let base = mix(opts.seed, hash_str(id));
+        // regenerate the case when the worker could not send it (death / hang)
+        let (case, tape) = if case.is_null() {
+            let fixed = C::fixed(opts.tier);
+            let (c, t) = case_for::<C>(&fixed, idx, base, opts.tier);
+            (serde_json::to_value(&c).unwrap_or_default(), t.map(|t| hex(&t)))
+        } else {
+            (case, tape)
+        };
+        let mut final_case = case;
+        let mut final_msg = msg.clone();
+        let mut final_tape = tape.clone();
+        if let (Some(t), false) = (&tape, msg.starts_with("process died") || msg.starts_with("does not terminate") || msg.starts_with("the process aborted")) {
+            // shrink in a supervised child
+            let f = out_dir().join(format!("{id}-shrink-{}.tape", std::process::id()));
+            let _ = std::fs::write(&f, t);
+            let args = vec![id.to_string(), opts.tier.name().to_string(), "--shrink".into(), f.display().to_string()];
+            if let Ok(mut c) = spawn_self(&args, "shrink") {
+                let deadline = Instant::now() + std::time::Duration::from_secs(200);
+                let mut last = None;
+                loop {
+                    match c.rx.recv_timeout(deadline.saturating_duration_since(Instant::now())) {
+                        Ok(Ev::Line(l)) => last = Some(l),
+                        Ok(Ev::Eof) | Err(std::sync::mpsc::RecvTimeoutError::Disconnected) => break,
+                        Err(std::sync::mpsc::RecvTimeoutError::Timeout) => {
+                            let _ = c.child.kill();
+                            break;
+                        }
+                    }
+                }
+                let _ = c.child.wait();
+                let _ = std::fs::remove_file(&c.stderr_path);
+                if let Some(v) = last.and_then(|l| serde_json::from_str::<serde_json::Value>(&l).ok()) {
+                    if !v["case"].is_null() {
+                        final_case = v["case"].clone();
+                        final_msg = v["message"].as_str().unwrap_or(&msg).to_string();
+                        final_tape = v["tape"].as_str().map(|s| s.to_string());
+                    }
+                }
+            }
+            let _ = std::fs::remove_file(&f);
+        }
+        let rf = serde_json::json!({"property": id, "message": final_msg, "case": final_case, "tape_hex": final_tape});
+        let js = serde_json::to_string_pretty(&rf).unwrap_or_default();
+        let path = out_dir().join(format!("{id}-{:016x}.json", hash_str(&js)));
+        let _ = std::fs::write(&path, js);
+        println!("{id}: case #{idx} failed: {final_msg}");
+        println!("VIOLATION property={id} replay={}", path.display());
+    }
+    let inc = inconclusive.into_inner().unwrap();
+    for m in &inc {
+        eprintln!("{id}: note: {m}");
+    }
+    if code == 0 && inc.iter().any(|m| m.contains("infrastructure") || m.contains("cannot spawn") || m.starts_with("case #") && m.contains("reference")) {
+        code = 2;
+    }
+    // known findings from their recorded inputs
+    for k in known.iter().filter(|k| k.property == id && k.status == "open") {
+        let still = match &k.replay {
+            Some(r) => matches!(replay_supervised(id, opts, &Path::new(VERIF_ROOT).join(r), C::case_timeout_s() * 3), ReplayEnd::Known(ref key) if *key == k.key),
+            None => known_hits.lock().unwrap().contains_key(&k.key),
+        };
+        if still {
+            println!("KNOWN-FINDING: property={id} {}: {}", k.key, k.what);
+        }
+    }
+    write_evidence::<C>(opts, started, evals.load(Ordering::Relaxed), execs.load(Ordering::Relaxed), &labels, &distinct, &known_hits, &samples, &nt_samples, regressions, fixed_n, violations);
+    println!(
+        "{id}: tier={} seed={} evaluations={} executions={} distinct_nontrivial={} wall={:.1}s (isolated workers) -> {}",
+        opts.tier.name(),
+        opts.seed,
+        evals.load(Ordering::Relaxed),
+        execs.load(Ordering::Relaxed),
+        distinct.lock().unwrap().len(),
+        started.elapsed().as_secs_f64(),
+        match code {
+            0 => "held",
+            1 => "VIOLATED",
+            _ => "INCONCLUSIVE",
+        }
+    );
+    code
+}
+
+thread_local! {
+    static LAST_PROGRESS: Cell<Instant> = Cell::new(Instant::now());
+}
+use std::cell::Cell;
+
+pub enum ReplayEnd {
+    Pass,
+    Known(String),
+    Fail(String),
+    Infra(String),
+}
+
+/// Replay a file in a supervised child process.
+pub fn replay_supervised(id: &str, opts: &RunOpts, path: &Path, timeout_s: u64) -> ReplayEnd {
+    let mut args = vec![id.to_string(), opts.tier.name().to_string(), "--replay".into(), path.display().to_string(), "--inner".into()];
+    if opts.strict {
+        args.push("--strict".into());
+    }
+    let Ok(mut c) = spawn_self(&args, "replay") else { return ReplayEnd::Infra("cannot spawn".into()) };
+    let deadline = Instant::now() + std::time::Duration::from_secs(timeout_s);
+    let mut lines = Vec::new();
+    loop {
+        match c.rx.recv_timeout(deadline.saturating_duration_since(Instant::now())) {
+            Ok(Ev::Line(l)) => lines.push(l),
+            Ok(Ev::Eof) | Err(std::sync::mpsc::RecvTimeoutError::Disconnected) => break,
+            Err(std::sync::mpsc::RecvTimeoutError::Timeout) => {
+                let _ = c.child.kill();
+                let _ = c.child.wait();
+                let _ = std::fs::remove_file(&c.stderr_path);
+                return ReplayEnd::Fail(format!("does not terminate within {timeout_s} s"));
+            }
+        }
+    }
+    let st = c.child.wait();
+    let tail = stderr_tail(&c.stderr_path);
+    let _ = std::fs::remove_file(&c.stderr_path);
+    let code = st.as_ref().ok().and_then(|s| s.code());
+    let text = lines.join("\n");
+    match code {
+        Some(0) => {
+            if let Some(l) = lines.iter().find(|l| l.starts_with("KNOWN-FINDING:")) {
+                let key = l.split_whitespace().nth(2).unwrap_or("").trim_end_matches(':').to_string();
+                ReplayEnd::Known(key)
+            } else {
+                ReplayEnd::Pass
+            }
+        }
+        Some(1) => ReplayEnd::Fail(text),
+        Some(2) => ReplayEnd::Infra(format!("{text} {tail}")),
+        _ => ReplayEnd::Fail(format!("the process aborted or was killed ({st:?}): {tail}")),
+    }
 }
